@@ -193,8 +193,8 @@ created beyond these four; as long as `k ≠ 0` some node has a pending frame (s
 is eventually delivered drives `k` to 0 after exactly 4 effective deliveries: the bound); and at `k = 0` the bus is
 quiescent, the library device (lower NAME) holds `a` and the foreign node has moved to `nx f0 ≠ a`.
 The mirror case (library with the higher NAME moves) is `C03_converges_two_nodes_lib_moves`. Not covered (still partial,
-`C03_converges_partial`): more than two nodes, several devices per instance, timers/polls interleaved with the contest.
-Two library instances against each other: `C03_converges_two_nodes_lib_lib`. -/
+`C03_converges_partial`): more than two nodes, several devices per instance. Two library instances against each other:
+`C03_converges_two_nodes_lib_lib`; with polls and clock advances interleaved: `C03_converges_two_nodes_timed`. -/
 theorem C03_converges_two_nodes (b0 : Bus) (n0 : Nat) (f0 : Iso.Node) (nx : Iso.Node → Nat)
     (hlt : n0 < f0.name) (hn1 : f0.name < 2^64) (ha : f0.addr ≤ 251) (hnx : ∀ f, nx f < 256) (hne : nx f0 ≠ f0.addr)
     (hnext : b0.next = nx) (h0 : Two b0 n0 f0.addr f0 [(f0.name, f0.addr)] [(n0, f0.addr)]) (evs : List Nat) :
@@ -259,6 +259,31 @@ theorem C03_converges_two_nodes_lib_lib (b0 : Bus) (n0 n1 a : Nat) (y0 : Inst) (
   · subst hk
     obtain ⟨q, c0, c1, hc⟩ := phLL_zero hp
     exact ⟨q, c0, c1, nxt_ne _ _ ha, hc⟩
+
+/-- **C03_converges_two_nodes_timed.** The library-vs-library contest of `C03_converges_two_nodes_lib_lib` under schedules
+that interleave deliveries with POLLS of either node (`ParseMessages` with nothing to read: the heartbeat pass lets an
+expired claim timer run out) and CLOCK ADVANCES by any amount (`Sch`). Polls and clock advances create no frame and move no
+address; the only thing they can change for the contest is the loser's end-of-search address: a claim timer that expires
+before the device loses sets it to the address before `a` (`updEnd a`). So the accounting is unchanged — `k` + effective
+deliveries = 4 for every such schedule, a frame is pending while `k ≠ 0` — and at `k = 0` the bus is quiescent, the lower
+NAME holds `a`, the other device is at `r ≠ a` with `r = nxt a e0` (end-of-search address `e0` it started with) or
+`r = nxt a (updEnd a) = (a+1) % 252` (timer expired first), and its change is latched. `EndIn` is the hypothesis that node 1
+has one device with end-of-search address `e0`. -/
+theorem C03_converges_two_nodes_timed (b0 : Bus) (n0 n1 a e0 : Nat) (y0 : Inst) (d1 : Dev)
+    (hlt : n0 < n1) (ha : a ≤ 251) (hn : b0.n = 2) (hy0 : (b0.node 1).kind = .lib y0) (hd1 : y0.s.devs = [d1])
+    (he0 : d1.endSource = e0) (h0 : Side b0 0 n0 a [(n1, a)]) (h1 : Side b0 1 n1 a [(n0, a)]) (evs : List Sch) :
+    ∃ k, k + effS b0 evs = 4 ∧ PhT n0 n1 a e0 k (run b0 (evs.map Sch.toEv)) ∧
+      (k ≠ 0 → ∃ i, i < (run b0 (evs.map Sch.toEv)).n ∧ ((run b0 (evs.map Sch.toEv)).node i).inbox ≠ []) ∧
+      (k = 0 → quiescent (run b0 (evs.map Sch.toEv)) ∧
+        claimants ((run b0 (evs.map Sch.toEv)).node 0).kind = [(n0, a)] ∧
+        (∃ r, R a e0 r ∧ r ≠ a ∧ claimants ((run b0 (evs.map Sch.toEv)).node 1).kind = [(n1, r)]) ∧
+        ChgAt (run b0 (evs.map Sch.toEv)) 1) := by
+  obtain ⟨k, hp, he⟩ := converge_runS (PhT n0 n1 a e0) (fun k b ev h => phT_step n0 n1 a e0 hlt ha k b h ev) evs 4 b0
+    ⟨hn, h0, h1, y0, d1, hy0, hd1, Or.inl he0⟩
+  refine ⟨k, he, hp, fun hk => ?_, fun hk => ?_⟩
+  · obtain ⟨k', rfl⟩ : ∃ k', k = k' + 1 := ⟨k - 1, by omega⟩
+    exact phT_pending hp
+  · subst hk; exact phT_zero ha hp
 
 /-! ## the receive slots in front of the claim handler; a device without an address stays silent -/
 
@@ -461,5 +486,11 @@ example : Side demoLL 0 0x200 251 [(0x300, 251)] ∧ Side demoLL 1 0x300 251 [(0
     ⟨⟨demoX, rfl, libOK_of_fields _ _ (demoLib_ok 251 0x300 (by omega) (by omega)) rfl rfl rfl rfl rfl rfl rfl, rfl, rfl⟩, rfl, ?_⟩, rfl, rfl⟩
   · intro c hc; simp at hc; subst hc; exact ⟨by decide, by decide⟩
   · intro c hc; simp at hc; subst hc; exact ⟨by decide, by decide⟩
+
+/-- `C03_converges_two_nodes_timed` on the concrete bus `demoLL` (hypotheses shown satisfiable above): a schedule with
+deliveries, polls and a 300 ms clock advance in the middle of the contest -/
+def demoSch : List Sch := [.deliver 0, .adv 300, .poll 1, .deliver 1, .poll 0, .deliver 0, .adv 5, .deliver 1]
+example : ((run demoLL (demoSch.map Sch.toEv)).node 1).inbox = [] ∧
+    claimants ((run demoLL (demoSch.map Sch.toEv)).node 1).kind = [(0x300, 0)] := by decide
 
 end N2k.C03
